@@ -258,7 +258,7 @@ func runDeductive(L *Loaded, db *ContractDB, rep *Report) {
 		if fc.Extern || fc.NoBody || !hasProp(fc.Props, rep.Prop) && !clauseHasProp(fc, rep.Prop) {
 			continue
 		}
-		if len(fc.Requires) == 0 && len(fc.Ensures) == 0 && len(fc.Loops) == 0 && !fc.NoPanic && len(fc.Asserts) == 0 {
+		if len(fc.Requires) == 0 && len(fc.Ensures) == 0 && len(fc.Loops) == 0 && !fc.NoPanic && len(fc.NoPanicKinds) == 0 && len(fc.Asserts) == 0 && !fc.ModAll && len(fc.Modifies) == 0 {
 			// ownership-only contract: checked by the frame obligations, not by symbolic execution
 			if L.Funcs[key] == nil {
 				rep.Errs = append(rep.Errs, fmt.Sprintf("contract target missing: %s (%s)", key, fc.Src))
